@@ -258,6 +258,23 @@ def _run_case(case, R):
                 R.check(d1.salt != d2.salt, "fresh-salt", "default", "two configurations share the default's salt")
             else:
                 R.check(d1.salt == d2.salt and d1.digest == d2.digest, "persist", "default-digest", "DigestValue default altered")
+            # a configuration that still holds nothing but its default is serialised: the default's plaintext is in none of
+            # the forms, and the default's salt and digest survive save + load like any other
+            R.label("default:serialised-untouched")
+            try:
+                t0 = fresh.to_tree()
+                R.check(not any(_contains(x.encode() if isinstance(x, str) else x, default_plain.encode()) for x in _tree_strings(t0)), "no-plaintext", "default:to_tree",
+                        lambda: "the plaintext default occurs in to_tree() of a configuration that was never assigned: %r" % (t0,))
+                for f in trees.FORMATS:
+                    blob = fresh.dumps(f)
+                    R.check(not _contains(blob, default_plain.encode()), "no-plaintext", "default:dumps:" + f, lambda: "the plaintext default occurs in dumps(%s) of an untouched configuration" % f)
+                back = schema()
+                back.loads(fresh.dumps(fmt), fmt)
+                db = get(back)
+                R.check(isinstance(db, cc.DigestValue) and db.salt == d1.salt and db.digest == d1.digest, "persist", "default:save-load",
+                        lambda: "the default's salt / digest changed across save + load of an untouched configuration (%s)" % fmt)
+            except Exception as exc:
+                R.fail("crash", "default:serialise", "serialising an untouched configuration raised %r" % (exc,))
     else:
         R.check(get(fresh) is None, "shape", "default:none", "no default, but value is %r" % (get(fresh),))
 
